@@ -1,5 +1,6 @@
 //! One module per correspondence stream. `generate` writes case lines, `run_line` executes one
 //! case against the real crate and prints its canonicalised outcome.
+pub mod api;
 pub mod consts;
 pub mod crc;
 pub mod de;
@@ -13,6 +14,7 @@ pub fn generate(stream: &str, seed: u64, n: usize, emit: &mut dyn FnMut(String))
 	match stream {
 		"ser" | "ser-valid" | "ser-mut" | "ser-sink" => ser::generate(stream, seed, n, emit),
 		"crc" => crc::generate(seed, n, emit),
+		"api" => api::generate(seed, n, emit),
 		"rt" => ser::generate_rt(seed, n, emit),
 		"single" => ser::generate_single(seed, n, emit),
 		"schema" | "schema-bad" => schema::generate(stream, seed, n, emit),
@@ -35,6 +37,7 @@ pub fn run_line(line: &str) -> String {
 		"" => Ok(String::new()),
 		"ser" => ser::run(line),
 		"crc" => crc::run(line),
+		"api" => Ok(api::run_history(line)),
 		"rt" => ser::run_rt(line),
 		"single" => ser::run_single(line),
 		"schema" => schema::run(line),
